@@ -112,6 +112,8 @@ def _tlc_phase(seed, sl, timeout, workers):
                 env[name][c] = _Cx.of(v)
     for src, img in sl.replacements:
         pool.add_replacement(src, img)
+    if getattr(sl, "repl_closure", False):
+        pool.close_replacements()
     name = "MC_" + sl.name.replace("-", "_")
     mc = replay.mc_module(name, pool, sl.lits, sl.zeros, sl.idx, sl.ops | sl.finalops, sl.maxnodes, sl.maxrank, sl.maxdim, sl.finalops, sl.levels, getattr(pool, "replmaps", ()), zerofi=sl.zerofi)
     cfg = replay.mc_cfg(pool, sl.maxnodes, sl.maxrank, sl.maxdim, final_only=sl.only_final, mikinds=sl.mikinds, chain=sl.chain)
